@@ -79,3 +79,29 @@ Proof.
   split; [|split; [exact A|split; [exact B|split; [exact C|exact D]]]].
   intros n Hn. rewrite G. apply mem_In in Hn. unfold nkeys in Hn. rewrite Hn. reflexivity.
 Qed.
+
+Lemma fold_eattr_update name v : forall l s, NoDup l ->
+  let t := fold_left (fun s e => eattr_update e [(name, v)] s) l s in
+  (forall e, get e (h_eattr t) = if mem e l then Some (aset name v (geta e (h_eattr s))) else get e (h_eattr s)) /\
+  h_node t = h_node s /\ h_edge t = h_edge s /\ h_nattr t = h_nattr s /\ h_uid t = h_uid s /\ h_net t = h_net s.
+Proof.
+  induction l as [|a l IH]; intros s ND; cbv zeta; cbn [fold_left].
+  - split; [intro n; reflexivity|repeat split].
+  - inversion ND as [|? ? Ha ND']; subst. destruct (IH (eattr_update a [(name, v)] s) ND') as (G & A & B & C & D & E). cbv zeta in *.
+    split; [|rewrite A, B, C, D, E; repeat split].
+    intro n. rewrite G. cbn [mem]. unfold eattr_update. cbn [h_eattr with_eattr]. rewrite get_set. unfold geta at 1. rewrite get_set.
+    destruct (lbl_eqb_spec n a) as [->|N]; cbn [orb].
+    + assert (M : mem a l = false) by (apply mem_nIn; exact Ha). rewrite M. reflexivity.
+    + destruct (mem n l); reflexivity.
+Qed.
+
+Theorem set_edge_attrs_scalar_effect v name s : Inv s ->
+  let t := st_of (set_edge_attrs_scalar v name s) in
+  (forall e, In e (ekeys s) -> get e (h_eattr t) = Some (aset name v (geta e (h_eattr s)))) /\
+  h_node t = h_node s /\ h_edge t = h_edge s /\ h_nattr t = h_nattr s /\ h_uid t = h_uid s.
+Proof.
+  intros (_ & (_ & _ & _ & Ke) & _). cbv zeta. unfold set_edge_attrs_scalar. rewrite st_of_ok.
+  destruct (fold_eattr_update name v (keys (h_edge s)) s Ke) as (G & A & B & C & D & _). cbv zeta in *.
+  split; [|split; [exact A|split; [exact B|split; [exact C|exact D]]]].
+  intros n Hn. rewrite G. apply mem_In in Hn. unfold ekeys in Hn. rewrite Hn. reflexivity.
+Qed.
